@@ -433,4 +433,30 @@ def run(rep):
                         isinstance(a1.args[0], ast.Name) and a1.args[0].id == argn:
                     ok, det = True, ""
         rep.check(ok, "R01.f", file, f"Transform.{pub}", f"Transform.{pub} wrapper", det, line=f.lineno)
+    # dutils.cast: for an array input the result is the transformed array converted to the input's dtype, shape untouched
+    dm = Mod(rep.repo, "data/dutils.py")
+    cf = dm.funcs.get("cast")
+    if cf is None:
+        raise AnalysisError("data/dutils.py: cast not found")
+    cpaths_ = [p_ for p_ in pq.PEval().run(cf) if p_.how == "return"]
+    SHAPERS = ("squeeze", "ravel", "flatten", ".flatten", "reshape", ".reshape", "atleast_1d", "atleast_2d", "atleast_3d", "transpose", "attr:T", "getitem", "expand_dims")
+    arr_paths, okc_, detc_ = 0, True, ""
+    for p_ in cpaths_:
+        v = p_.value
+        if not pq.call_named(v, "astype"):
+            continue
+        arr_paths += 1
+        inner = v[2][0]
+        while pq.call_named(inner, "copy") or pq.call_named(inner, "array") or pq.call_named(inner, "asarray"):
+            inner = inner[2][0]
+        if inner != ('sym', cf.args.args[1].arg):
+            bad_ = pq.find(v, lambda x: x[0] == 'call' and x[1] in SHAPERS)
+            if bad_:
+                okc_, detc_ = False, f"the array result passes through {bad_[0][1]}(): its shape is not the shape of the transformed array"
+            else:
+                okc_, detc_ = None, show(v)[:100]
+    if okc_ is None or not arr_paths:
+        rep.undecided("R01.f", "data/dutils.py", "cast", "array branch returns np.array(y).astype(dtype of x): shape untouched", detc_ or "array branch not found", line=cf.lineno)
+    else:
+        rep.check(okc_, "R01.f", "data/dutils.py", "cast", "array branch returns np.array(y).astype(dtype of x): shape untouched", detc_, line=cf.lineno)
     return EXPLANATION
